@@ -333,7 +333,15 @@ class Engine(
                     # apply a new Sort-only Select to 'select' itself).
                     return Select.apply_skip(select, sort=operation)
                 else:
-                    return select.reapply_skip(sort=select.sort.then(operation))
+                    new_sort = select.sort.then(operation)
+                    if select.is_compound and not all(
+                        isinstance(term.expression, ColumnReference) for term in new_sort.terms
+                    ):
+                        # The ORDER BY of a UNION [ALL] can only name its result
+                        # columns; sort expressions are evaluated one level up,
+                        # with the compound query as a subquery.
+                        return Select.apply_skip(select.reapply_skip(sort=None), sort=new_sort)
+                    return select.reapply_skip(sort=new_sort)
             case PartialJoin(binary=binary, fixed=fixed, fixed_is_lhs=fixed_is_lhs):
                 if fixed_is_lhs:
                     return self.append_binary(binary, fixed, select)
